@@ -437,3 +437,46 @@ pub mod native_decode {
         decode_payload(p, dict, size, &f[13..])
     }
 }
+
+/// Translator validation (native only): decode every `*.lzma` file of the repository's test
+/// corpus, and a few outputs of the crate's own encoder, with the decoder assembled from the
+/// transcription above and with the real `lzma_decompress`; both must agree byte for byte.
+#[cfg(not(kani))]
+pub fn translator_validation(dir: &str) -> (usize, usize, Vec<String>) {
+    let mut checked = 0usize;
+    let mut bad = 0usize;
+    let mut names: Vec<String> = Vec::new();
+    let mut inputs: Vec<(String, Vec<u8>)> = Vec::new();
+    if let Ok(rd) = std::fs::read_dir(dir) {
+        for e in rd.flatten() {
+            let p = e.path();
+            if p.extension().map(|x| x == "lzma").unwrap_or(false) {
+                if let Ok(d) = std::fs::read(&p) {
+                    inputs.push((p.file_name().unwrap().to_string_lossy().to_string(), d));
+                }
+            }
+        }
+    }
+    for (k, plain) in [&b""[..], &b"a"[..], &b"hello hello hello hello"[..], &[0xFFu8; 300][..]].iter().enumerate() {
+        let mut c = Vec::new();
+        if crate::lzma_compress(&mut &plain[..], &mut c).is_ok() {
+            inputs.push((format!("encoder-output-{}", k), c));
+        }
+    }
+    for (name, data) in inputs {
+        let mut real = Vec::new();
+        let r = crate::lzma_decompress(&mut &data[..], &mut real);
+        let s = native_decode::decode_lzma_file(&data);
+        checked += 1;
+        let agree = match (&r, &s) {
+            (Ok(()), Ok(v)) => *v == real,
+            (Err(_), Err(_)) => true,
+            _ => false,
+        };
+        if !agree {
+            bad += 1;
+        }
+        names.push(format!("{}:{}", name, if agree { "agree" } else { "DISAGREE" }));
+    }
+    (checked, bad, names)
+}
